@@ -168,6 +168,9 @@ class RuntimeAssertionFeedback(AssertionFeedback):
         check_condition = self.condition
 
         def condition(*condition_args, **condition_kwargs):
+            # Likewise an operand that is itself an error satisfies no relation.
+            if left.is_error or right.is_error:
+                return True
             try:
                 return check_condition(*condition_args, **condition_kwargs)
             except Exception:
